@@ -33,10 +33,18 @@ def templates(ctx):
         ('long-num', [b'123456789012345678901234567890', 1]), ('long-num-frac', [b'0.123456789012345678901234567890', 1]),
         ('long-exp', [b'1e40', 1]), ('long-exp-neg', [b'1e-40', 1]), ('long-year', [b'12345-01-0', 1]), ('long-date-digits', [b'2021-003-0', 1]),
         ('long-coord', [b'C(12.3456789012345678901234,-0.00000000000000000000001', 1]), ('long-ref', [b'@' + b'a' * 70, 1]),
-        ('long-unit', [b'1' + b'x' * 40, 1]), ('long-zone', [b'2021-03-04T05:06:07+00:00 ' + b'A' * 50, 1]), ('long-hex', [b'"\\u00000000', 1]),
+        ('long-unit', [b'1' + b'x' * 40, 1]),
+        # long non-ASCII tokens (anything that cuts, pads or indexes text by bytes)
+        ('long-unit-u', [b'42' + '\u65e5'.encode() * 70, 1]), ('long-unit-u2', [b'421' + '\u65e5'.encode() * 70, 1]), ('long-unit-u3', [b'4211' + '\u65e5'.encode() * 70, 1]),
+        ('long-str-u', [b'[1 "' + '\u00fc'.encode() * 120 + b'"', 1]), ('long-str-u2', [b'[12 "' + '\u00fc'.encode() * 120 + b'"', 1]),
+        ('long-ref-u', [b'ver:@site "x' + '\u00fc'.encode() * 120 + b'"', 1]), ('long-ref-u2', [b'ver:@site "xy' + '\u00fc'.encode() * 120 + b'"', 1]), ('long-zone', [b'2021-03-04T05:06:07+00:00 ' + b'A' * 50, 1]), ('long-hex', [b'"\\u00000000', 1]),
     ]
     for name, parts in sk:
         T.append({'name': 'sk-' + name, 'parts': parts, 'core': False})
+    # flat collections of 2 and 9 entries: the decoder's call depth must not grow with the number of entries (only with nesting)
+    for nm, mk in (('list', lambda n: b'[' + b','.join([b'1'] * n) + b']'), ('dict', lambda n: b'{' + b' '.join(b'a%d:1' % i for i in range(n)) + b'}'),
+                   ('rows', lambda n: GRID + b'a\n' + b'1\n' * n), ('cols', lambda n: GRID + b','.join(b'a%d' % i for i in range(n)) + b'\n')):
+        for n in (2, 9): T.append({'name': 'flat-%s-%d' % (nm, n), 'parts': [mk(n)], 'core': False, 'flat': (nm, n)})
     # reader faults: a non-EOF error at every offset of a few documents
     docs = [b'[1,"a"]', GRID + b'a\n1\n', b'{a:1 b}']
     if q: docs = docs[:2]
@@ -145,6 +153,20 @@ def run(ctx):
     sym.native_check(ctx, S)
     byk = collections.Counter(s['kind'] for s in S)
     ctx.cov['path_kinds'] = dict(byk)
+    # unbounded recursion: flat collections are decoded in constant call depth
+    depth = {s['template']: s.get('maxdepth', 0) for s in S if s.get('template', '').startswith('flat-') and s['kind'] == 'ok'}
+    ctx.cov['flat_collection_call_depth'] = depth
+    BIG = {'list': lambda: b'[' + b','.join([b'1'] * 300000) + b']', 'dict': lambda: b'{' + b' '.join(b'a%d:1' % i for i in range(200000)) + b'}',
+           'rows': lambda: GRID + b'a\n' + b'1\n' * 300000, 'cols': lambda: GRID + b','.join(b'a%d' % i for i in range(200000)) + b'\n'}
+    for nm in ('list', 'dict', 'rows', 'cols'):
+        d2, d9 = depth.get('flat-%s-2' % nm), depth.get('flat-%s-9' % nm)
+        if d2 is None or d9 is None: ctx.note_inconclusive('flat %s: no depth measurement' % nm); continue
+        if d9 > d2:
+            case = {'api': 'zinc_decode', 'in': BIG[nm]().hex()}
+            n_ = native.run_cases(native.build(), [case], per_case_timeout=120)[0]
+            if 'abort' in n_ or 'hang' in n_ or 'panic' in n_:
+                ctx.report('zinc.decode.recursion:flat-%s' % nm, 'the call depth of the decoder grows with the number of entries of a flat %s (%d frames for 2, %d for 9); a flat %s of 2-3e5 entries: %s' % (nm, d2, d9, nm, str(n_)[:80]), case=case)
+            else: ctx.note_inconclusive('call depth grows with a flat %s (%d -> %d frames) but a very long one decodes natively' % (nm, d2, d9))
     mism = 0; validated = 0
     unsup = collections.Counter()
     for s in S:
